@@ -13,14 +13,18 @@ entry points of the task sets):
                    observed cancelled.
   C16.last-on-caller the one-functor overload (the end of the recursion) contains no scheduling call:
                    the last functor runs on the calling thread before parallel_invoke returns.
+  C16.wait-zero    (shared with C02) the task sets' wait() returns only on an edge where an acquire
+                   load of the outstanding counter read zero; tryWait is true only then; the
+                   destructors wait.
 """
 import re
 from lib import typestate
 from lib.facts import strip_casts, strip_move, subexprs
 
+ANCHOR_SOURCES = ["props/C02.py"]
 LEVEL = "other"
 EXPLANATION = __doc__
-NOT_DECIDED = ["completion at wait() (C02)", "that the pool runs each queued functor (C01)"]
+NOT_DECIDED = ["that the pool runs each queued functor (C01)"]
 WHY = "each functor handed to parallel_invoke must be invoked exactly once"
 ENTRY = ("schedule", "schedulePlaced", "parallel_invoke")
 
@@ -70,3 +74,8 @@ def run(R):
         for v in vios:
             R.ob("C16.sched-linear", fn, (v["ev"] or {}).get("loc") or fn.loc, False, v["msg"], sitekey=fn.qname.split("::")[-2] + "::" + fn.qname.split("::")[-1], why=WHY, path=fn.describe_path(v["trail"][-8:]))
     R.need("C16.sched-linear", n, 6, "task-set scheduling entry point instantiations")
+
+    # "all of them have finished once the task set's wait() returns": the observation that ends wait()
+    from props import C02 as _c02
+    n = _c02.wait_zero(R, "C16.wait-zero", "every functor has finished (and its writes are visible) once the task set's wait() returns")
+    R.need("C16.wait-zero", n, 6, "wait / tryWait / destructor of the task sets")
